@@ -7,13 +7,22 @@ Lines:
   cfg nspgiven <s> <thr> <n>                     #scatter points of scatter-point image s at threshold thr
   cfg nspdown <att> <zoom> <thr> <n>             … of attenuation image att down-sampled with zoom set
   cfg zbad <act>                                 activity image with a different z-middle
-  cfg hist <clean|dirty> …                       `clean`: every operation must satisfy the guard `opOk`
+  cfg hist <clean|clean2|dirty> …                `clean`: every operation must satisfy the guard `opOk`;
+                                                 `clean2`: the weaker guard of `runGuarded2` (enabling the cache on a set-up
+                                                 object is admitted when the next operation line is `set_up`)
   new | set_tmpl k | set_act k | set_att k | set_spimg k | set_exam k | set_zoom k | set_thr k
   set_use_cache b | set_cache_enabled b | set_ds b rings dets | ds_scanner r d | set_up | process | nsp | tmplinfo
        (k = -1: null pointer)
   set_act_ip k | set_att_ip k | set_spimg_ip k   the owner's image object is overwritten in place with the values of pool
                                                  image k and the SAME pointer is handed to the setter again
   ds_sp                                          downsample_density_image_for_scatter_points(current zoom set)
+  set_rnd b                                      set_randomly_place_scatter_points
+  set_exam_sptr k                                set_exam_info_sptr (same body as set_exam_info)
+  set_tmpl_file k e                              set_template_proj_data_info(filename): pool template k / exam info e are what
+                                                 the file contains
+  set_act_file k | set_att_file k | set_spimg_file k   set_activity_image / set_density_image /
+                                                 set_density_image_for_scatter_points (filename): read + the _sptr setter
+  parse_use_cache b                              parse() of a parameter file that only has `use cache := b`
   effns <rAB2> <eff511> <cosA> <cosB> <pi>       detection_efficiency_no_scatter(A,B)
   ssp  <5 pair values> <5 values for A> <5 values for B>          simulate_for_one_scatter_point
   est  <n> (<15 values>)^n <rAB2> <eff511> <cosA> <cosB> <pi> <vol> <sigma511>   actual_scatter_estimate
@@ -122,6 +131,10 @@ structure DSt where
   tab : Tables := {}
   st : Option St := some init      -- `none`: the object crashed
   clean : Bool := false
+  /-- weaker guard (`runGuarded2`) instead of `opOk` alone -/
+  clean2 : Bool := false
+  /-- the previous line enabled the cache on a set-up object: this line must be `set_up` -/
+  pending : Bool := false
 
 def optId (s : String) : Option Nat := if s.startsWith "-" then none else s.toNat?
 
@@ -144,6 +157,13 @@ def parseOp (W : World) (toks : List String) : Option (List Op) :=
   | ["set_thr", k] => some [.setThr (N k)]
   | ["set_use_cache", b] => some [.setUseCache (b == "1")]
   | ["set_cache_enabled", b] => some [.setCacheEnabled (b == "1")]
+  | ["parse_use_cache", b] => some [.setCacheEnabled (b == "1")]
+  | ["set_rnd", b] => some [.setRndPlace (b == "1")]
+  | ["set_exam_sptr", k] => some [.setExam (N k)]
+  | ["set_tmpl_file", k, e] => some [.setTemplateFile (N e) (W.tmpl (N k))]
+  | ["set_act_file", k] => some [.setActivity (optId k)]
+  | ["set_att_file", k] => some [.setDensity (optId k)]
+  | ["set_spimg_file", k] => some [.setSpImage (optId k)]
   | ["set_ds", b, r, d] => some [.setDsBool (b == "1"), .setDsRings (I r), .setDsDets (I d)]
   | ["ds_scanner", r, d] => some [.downsampleScanner (I r) (I d)]
   | ["ds_sp"] => some [.downsampleSp]
@@ -173,7 +193,7 @@ def stepLine (d : DSt) (line : String) : DSt × String :=
   let toks := (line.trimAscii.toString.splitOn " ").filter (· ≠ "")
   let N (s : String) : Nat := s.toNat?.getD 0
   match toks with
-  | ["cfg", "world", _] => ({ tab := {}, st := some init, clean := false }, "ok")
+  | ["cfg", "world", _] => ({ tab := {}, st := some init, clean := false, clean2 := false, pending := false }, "ok")
   | ["cfg", "tmpl", k, b, dd, r, nt, ns] =>
     ({ d with tab := { d.tab with tmpls := (N k, ⟨N b, N dd, N r, N nt, N ns⟩) :: d.tab.tmpls } }, "ok")
   | ["cfg", "tmpl", k, b, dd, r, nt, ns, bl, _] =>
@@ -184,9 +204,9 @@ def stepLine (d : DSt) (line : String) : DSt × String :=
   | ["cfg", "nspdown", a, z, t, n] =>
     ({ d with tab := { d.tab with nspDown := ((N a, N z, N t), N n) :: d.tab.nspDown } }, "ok")
   | ["cfg", "zbad", a] => ({ d with tab := { d.tab with zbad := N a :: d.tab.zbad } }, "ok")
-  | "cfg" :: "hist" :: kind :: _ => ({ d with clean := kind == "clean" }, "ok")
+  | "cfg" :: "hist" :: kind :: _ => ({ d with clean := kind == "clean", clean2 := kind == "clean2", pending := false }, "ok")
   | "cfg" :: _ => (d, "ok")
-  | ["new"] => ({ d with st := some init }, "ok")
+  | ["new"] => ({ d with st := some init, pending := false }, "ok")
   | "ssp" :: xs =>
     match xs.mapM parseHexFloat with
     | some rs => (d, doSsp rs)
@@ -214,6 +234,16 @@ def stepLine (d : DSt) (line : String) : DSt × String :=
         match parseOp W toks with
         | none => (d, "bad-op")
         | some ops =>
+          if d.clean2 then
+            -- `runGuarded2`: a single-operation line that enables the cache against `opOk` is admitted, the next line
+            -- must be `set_up`
+            let late := d.pending && toks != ["set_up"]
+            let defer := match ops with
+              | [op] => !opOk s op && isEnable op
+              | _ => false
+            let (st', txt) := applyOps W (!defer) s ops
+            ({ d with st := st', pending := defer }, if late then txt ++ " GUARD2-VIOLATED" else txt)
+          else
           let (st', txt) := applyOps W d.clean s ops
           ({ d with st := st' }, txt)
 
